@@ -668,6 +668,7 @@ int64_t _ZNSt6chrono3_V212system_clock3nowEv (void) { dm_depends_on_clock (); re
 int mc_nanosleep (const struct timespec *req, struct timespec *rem) {
 	if (cur < 0) return 0;
 	int me = cur;
+	F[me].dm.overflow = 1;
 	F[me].dl = now_ns + req->tv_sec * MC_NS + req->tv_nsec; F[me].st = ST_SLEEP; F[me].blocks += F[me].blocks_armed;
 	mc_switch_ (&F[me].sp, main_sp);
 	F[me].st = ST_RUN; F[me].dl = MC_NEVER;
@@ -694,6 +695,9 @@ long mc_syscall (long nr, ...) {
 	if (cmd == FUTEX_WAIT_BITSET || cmd == FUTEX_WAIT) {
 		sched_point (0);
 		site (pc);
+		/* An iteration that went through a kernel wait is not a pure function of shared memory (its
+		   outcome depends on wake-ups and on the clock): it must never be parked as a no-op spin. */
+		F[me].dm.overflow = 1;
 		if (check_live (uaddr, 4, "futex wait", pc)) { errno = EFAULT; return -1; }
 		if (ts && (ts->tv_sec < 0 || ts->tv_nsec < 0 || ts->tv_nsec >= MC_NS)) {
 			if (opt_verbose) printf ("  T%d futex_wait %s -> EINVAL (timespec {%ld,%ld})\n", me, addr_name (uaddr, nb, sizeof nb), (long)ts->tv_sec, ts->tv_nsec);
@@ -735,6 +739,7 @@ int mc_binsem_p (int *s, int has_dl, int64_t dl) {
 	int me = cur; char nb[64];
 	if (me < 0) die ("semaphore P during init");
 	sched_point (0);
+	F[me].dm.overflow = 1;     /* see mc_syscall: an iteration that waits on a semaphore is never a no-op spin */
 	for (;;) {
 		if (check_live (s, 4, "semaphore P", pc)) return 0;
 		if (*(volatile int *)s != 0) { dm_note ((uintptr_t)s, 4); *s = 0; if (opt_verbose) printf ("  T%d semP %s -> taken\n", me, addr_name (s, nb, sizeof nb)); return 0; }
